@@ -190,3 +190,24 @@ Fixpoint spec_seq (l : list elem) (ss : list step) : option (list (elem * list e
       | None => None
       end
   end.
+
+(* ---- callbacks that throw: the throw of the first callback invocation that is actually reached
+   comes out of the method, and the receiver is as before.  `stops m y`: result y makes method m
+   stop iterating (find / findIndex / some at the first truthy result, every at the first falsy) *)
+Definition stops (m : meth) (y : elem) : bool :=
+  match m with
+  | MFind | MFindIndex | MSome => truthy y
+  | MEvery => negb (truthy y)
+  | _ => false
+  end.
+Definition is_cb_method (m : meth) : bool :=
+  match m with MMap | MFilter | MFind | MFindIndex | MForEach | MEvery | MSome | MFlatMap => true | _ => false end.
+(* the callback returned, without stopping the method, on every element of `pre` (starting at index i) *)
+Fixpoint passes (m : meth) (f : callbackT) (all : list elem) (i : Z) (pre : list elem) : bool :=
+  match pre with
+  | [] => true
+  | x :: r => match f x i all with
+              | Some y => negb (stops m y) && passes m f all (i + 1) r
+              | None => false
+              end
+  end.
